@@ -239,3 +239,76 @@ Theorem C10_concurrent_misses_later_wins :
               e_val a = vj /\ e_time a = now s.
 Proof. exact concurrent_misses. Qed.
 Print Assumptions C10_concurrent_misses_later_wins.
+
+(* ... in general: whatever misses overlapped and in whatever order they completed, the entry a
+   store holds for a key is the response stored last for it, with the instant of that store *)
+Theorem C10_overlapping_misses_last_stored_wins :
+  forall (c : cfg) (evs : list ev) (sid : nat) (k v t : Z),
+    latest_of (trace c (init c) evs) sid k = Some (v, t) ->
+    forall a, lookup k (stores (final c (init c) evs) sid) = Some a -> e_val a = v /\ e_time a = t.
+Proof. exact last_stored_wins. Qed.
+Print Assumptions C10_overlapping_misses_last_stored_wins.
+
+(* What "frequently", "recently" and "first in" mean in C10_victim_lfu / _lru / _fifo, as functions of
+   the history alone.  `uses sid k o`: observation o is a lookup that found (sid, k) or a response stored
+   under (sid, k); `leaves sid k o`: o evicts (sid, k) or finds it expired.
+   The frequency of an entry is 1 + the number of uses since the observation that made the key present
+   (the code's LfuStore: 1 at insert, +1 per get, +1 per overwrite; the property does not fix this reading,
+   the monitor in gen/c10.py accepts hits-only and reset-on-overwrite as well); *)
+Theorem C10_freq_counts_uses :
+  forall (c : cfg) (evs : list ev) (sid : nat) (k : Z) (a : entry),
+    snd (spec (trace c (init c) evs)) sid k = Some a ->
+    e_freq a = 1 + Z.of_nat (length (filter (uses sid k)
+                   (skipn (S (Z.to_nat (e_ins a))) (trace c (init c) evs)))).
+Proof. exact freq_counts_uses. Qed.
+Print Assumptions C10_freq_counts_uses.
+
+(* e_ins is the index of the observation that stored the key while it was absent (or evicted/expired by
+   that very observation), and the key has not left the store since; *)
+Theorem C10_ins_is_insertion :
+  forall (c : cfg) (evs : list ev) (sid : nat) (k : Z) (a : entry),
+    snd (spec (trace c (init c) evs)) sid k = Some a ->
+    0 <= e_ins a < Z.of_nat (length evs) /\
+    (exists o, nth_error (trace c (init c) evs) (Z.to_nat (e_ins a)) = Some o /\ stores_on sid k o = true /\
+       (snd (spec (firstn (Z.to_nat (e_ins a)) (trace c (init c) evs))) sid k = None \/ leaves sid k o = true)) /\
+    forall o, In o (skipn (S (Z.to_nat (e_ins a))) (trace c (init c) evs)) -> leaves sid k o = false.
+Proof. exact ins_is_insertion. Qed.
+Print Assumptions C10_ins_is_insertion.
+
+(* e_used is the index of the last observation that used the entry. *)
+Theorem C10_used_is_last_use :
+  forall (c : cfg) (evs : list ev) (sid : nat) (k : Z) (a : entry),
+    snd (spec (trace c (init c) evs)) sid k = Some a ->
+    e_ins a <= e_used a /\
+    (exists o, nth_error (trace c (init c) evs) (Z.to_nat (e_used a)) = Some o /\ uses sid k o = true) /\
+    forall o, In o (skipn (S (Z.to_nat (e_used a))) (trace c (init c) evs)) -> uses sid k o = false.
+Proof. exact used_is_last_use. Qed.
+Print Assumptions C10_used_is_last_use.
+
+(* The theorems above speak about `trace c (init c) evs` and `final c (init c) evs`; the trace that
+   run_script prints (and bin/check compares with the implementation's) is a rendering of exactly these:
+   record j shows observation j and the state after event j (result, value, inner call started, callers
+   with an inner call in flight, listener bits, one bit per entry of stores 0 and 1). *)
+Theorem C10_run_script_prints_the_history :
+  forall (sc : list Z),
+    let c := cfg_of sc in
+    let n := Z.to_nat (zn sc 4) in
+    let m := Z.to_nat (zn sc 5) in
+    let evs := evs_of n (chunk3 (firstn (3 * m) (skipn 6 sc))) (skipn (3 * m) (skipn 6 sc)) in
+    run_script sc = concat (map (record c n (init c) evs) (seq 0 (length evs))).
+Proof. exact run_script_records. Qed.
+Print Assumptions C10_run_script_prints_the_history.
+
+(* Caveat to C10_hit_latest: the TTL bounds the age of a value at the LOOKUP (in call()); the future of a
+   hit keeps the value it found (C10_hit_future_returns_value holds in every later state), so the age at
+   delivery is unbounded: with ttl 0, a value stored at instant 0 is handed over at any instant D. *)
+Theorem C10_delivery_age_unbounded :
+  forall (D : Z), 0 <= D ->
+    let c := ex_cfg Lru 1 (Some 0) false in
+    let evs := [Call 0 0 5; Complete 0 (OOk 7); Poll 0 (-1); Call 1 0 5; Advance D] in
+    o_stored (snd (step c (final c (init c) (firstn 2 evs)) (Poll 0 (-1)))) = Some (0%nat, 5, 7, 0) /\
+    now (final c (init c) evs) = D /\
+    o_r (snd (step c (final c (init c) evs) (Poll 1 (-1)))) = 1 /\
+    o_val (snd (step c (final c (init c) evs) (Poll 1 (-1)))) = 7.
+Proof. exact delivery_age_unbounded. Qed.
+Print Assumptions C10_delivery_age_unbounded.
